@@ -159,17 +159,11 @@ def as_designed(rec):
 
 def validate(records, rep, tag):
     """-> {record id: clause} decided by spec/ScopeTrace.tla"""
-    tf = os.path.join(tmp_dir('c07'), tag + '.ndjson')
-    with open(tf, 'w') as f:
-        for rec in records:
-            f.write(json.dumps(rec) + '\n')
-    tr = run_tlc('ScopeTrace', cfg='ScopeTrace.cfg',
-                 cfg_text='SPECIFICATION Spec\nINVARIANT Verdict\n',
-                 modules={'Dummy_': '---- MODULE Dummy_ ----\n====\n'},
-                 workers=12, env={'TRACE_FILE': tf}, heap='8g')
-    rep.add_tlc(tr)
+    from common import validate_trace
+    tlines = validate_trace('ScopeTrace', records, 'c07' + tag, rep,
+                            chunk=8000)
     out = {}
-    for line in tr.lines:
+    for line in tlines:
         rid, clause = json.loads(line)
         out[rid] = clause
     if len(out) != len(records):
